@@ -100,7 +100,7 @@ CHECKS = {
          "DESIGN.md §4 C18"),
  "C20": ("model_checking",
          "exhaustive enumeration of two-thread fork-join programs m1(O) || m2(O) over shared objects x unordered pairs of read-only methods, each decided by one run under the race detector in a binary built with pure-Go arithmetic (happens-before is schedule-independent for fork-join programs); results compared with sequential runs",
-         "7,000 programs: for each of the 20 groups a non-normalised sum, a decoded point, a product and a scalar, plus suites and their random streams (crypto/rand and Go-code readers), a public polynomial, Schnorr and BLS public keys on all 5 pairing suites, a BDN and a CoSi mask; every unordered pair (incl. m,m) of 13-17 read-only methods (encode, print, compare on either side, clone, Data, operand of Add/Sub/Neg/Mul/Set into a private receiver, Pair/ValidatePairing, Verify, Eval/Check/Commit, stream draws, mask accessors). The binary is built with -race -tags generic,purego so that the field arithmetic of kilic, gnark, bn256/bn254 and bigmod is instrumented Go instead of assembly.",
+         "7,300 programs: for each of the 20 groups a non-normalised sum, a decoded point, a product and a scalar, plus suites and their random streams (crypto/rand and Go-code readers), public and secret polynomials, Schnorr keys on 7 groups, EdDSA and BLS public keys on all 5 pairing suites, sigma-protocol predicates with public points and proofs, DLEQ proofs, ring-signature sets, a threshold-BLS public polynomial, ECIES key pairs, pairing suites as factories, a BDN and a CoSi mask; every unordered pair (incl. m,m) of 13-17 read-only methods (encode, print, compare on either side, clone, Data, operand of Add/Sub/Neg/Mul/Set into a private receiver, Pair/ValidatePairing, Verify, Eval/Check/Commit, stream draws, mask accessors). The binary is built with -race -tags generic,purego so that the field arithmetic of kilic, gnark, bn256/bn254 and bigmod is instrumented Go instead of assembly.",
          "Trusted: Go's race detector (limits: shadow-cell eviction, control flow depending on a racy read). Interleaving-dependent wrong results without a conflicting access pair are impossible; interleavings themselves are not enumerated in this tier.",
          "DESIGN.md §4 C20"),
  "C11": ("model_checking",
